@@ -107,13 +107,12 @@ def conf_full(seed, knobs=None):
     s.append({"op": "tick", "n": rng.randint(0, 8)})
     cmds = ["incr", "decr", "set_np", "restart", "reload", "kill", "stop", "start", "status", "numprocesses",
             "signal", "list"]
-    p = {"cmds": cmds}
+    p = {"cmds": k.get("cmds", cmds), "childsel": k.get("childsel", 0.2)}
     for _ in range(rng.randint(2, k["steps"])):
         r = rng.random()
         w = rng.choice(names)
         if r < 0.4:
             q = scenario.gen_request(rng, w, p, names)
-            q["props"] = {kk: v for kk, v in q["props"].items() if kk not in ("children", "recursive")}
             if "name" in q["props"]:
                 q["props"]["name"] = q["props"]["name"].lower()
             if rng.random() < k["quit"]:
@@ -526,3 +525,13 @@ def conf_sig(seed):
 
 
 PROFILES["conf_sig"] = conf_sig
+
+
+def conf_kids(seed):
+    """conformance profile for the children of workers: many forks, signal / kill / stop requests addressing
+    children, descendants and single child pids, stop_children watchers"""
+    return conf_full(seed, {"fork": 2.0, "sch": 0.6, "childsel": 0.5, "hooks": 0.2, "faults": 0.0,
+                            "cmds": ["signal", "signal", "signal", "kill", "stop", "restart", "decr", "status"]})
+
+
+PROFILES["conf_kids"] = conf_kids
